@@ -317,6 +317,60 @@ def gen_token(rng, depth=0):
     return rng.choice([TerminationToken(), IterationTerminationToken(tag=tag)])
 
 
+def gen_shared_tokens(rng):
+    """values that are DAGs, not trees: ONE unsaved token instance below two sibling composite tokens that are saved
+    concurrently (`_save_value` gathers the saves of the members). Returns (top-level tokens, save them concurrently?)"""
+    tag = "0." + str(rng.randint(0, 9))
+    c = Token(value=rjson(rng), tag=tag + ".7", recoverable=rng.random() < 0.5)
+    shape = rng.choice(["list-of-lists", "object+list", "object+job", "two-roots", "deep"])
+    other = lambda: gen_token(rng, 2)      # noqa: E731
+    if shape == "list-of-lists":
+        return [ListToken(value=[ListToken(value=[c, other()], tag=tag), ListToken(value=[other(), c], tag=tag)], tag=tag)], False
+    if shape == "object+list":
+        return [ListToken(value=[ObjectToken(value={"a": c, "b": other()}, tag=tag), ListToken(value=[c], tag=tag), c], tag=tag)], False
+    if shape == "object+job":
+        job = Job(name="/j/" + tag, workflow_id=1, inputs={"x": c, "y": other()}, input_directory=None, output_directory="/o", tmp_directory=None)
+        return [ObjectToken(value={"o": ObjectToken(value={"k": c}, tag=tag), "j": JobToken(value=job, tag=tag)}, tag=tag)], False
+    if shape == "two-roots":
+        return [ListToken(value=[c, other()], tag=tag), ObjectToken(value={"k": c}, tag=tag)], True
+    mid = ListToken(value=[c], tag=tag)
+    return [ListToken(value=[ListToken(value=[mid, c], tag=tag), ObjectToken(value={"m": mid, "c": c}, tag=tag)], tag=tag)], False
+
+
+def rewire(rng, wf, ports):
+    """attach new ports to steps that are ALREADY persisted, and add a new step: the next `workflow.save` must record them"""
+    changed = 0
+    for step in rng.sample(list(wf.steps.values()), min(len(wf.steps), rng.randint(1, 3))):
+        if isinstance(step, (DeployStep, ScheduleStep)):
+            continue
+        used = {p.name for p in list(step.get_input_ports().values()) + list(step.get_output_ports().values())}
+        for _ in range(rng.randint(1, 2)):
+            p = wf.create_port(rng.choice([Port, Port, JobPort]))
+            ports.append(p)
+            try:
+                # (an output port of an execute step also creates an output processor, which lives in the step's params:
+                #  params of a persisted step are not written again, so only steps without processors get late outputs)
+                if rng.random() < 0.6 or hasattr(step, "output_processors"):
+                    step.add_input_port("late-in" + str(len(used)) + rs(rng), p)
+                else:
+                    step.add_output_port("late-out" + str(len(used)) + rs(rng), p)
+                used.add(p.name)
+                changed += 1
+            except Exception:  # noqa: BLE001  (a step class that refuses more ports)
+                pass
+        free = [p for p in ports if p.name not in used and p.persistent_id is not None]
+        if free and rng.random() < 0.5:
+            p = rng.choice(free)           # an already persisted port attached to an already persisted step
+            try:
+                step.add_input_port("late-old" + rs(rng), p)
+                changed += 1
+            except Exception:  # noqa: BLE001
+                pass
+    st = wf.create_step(cls=ExecuteStep, name="/late" + sfutils.random_name()[:6], job_port=wf.create_port(JobPort))
+    st.add_input_port("in", rng.choice(ports))
+    return changed + 1
+
+
 async def one_case(seed, context):
     try:
         return await _one_case(seed, context)
@@ -332,12 +386,31 @@ async def _one_case(seed, context):
     wf, ports = build_workflow(rng, context)
     db = context.database
     await wf.save(db)
+    # multi-save history: the saved workflow is rewired and saved again (once or twice) before it is loaded
+    resaves = 0
+    for _ in range(rng.choice([0, 1, 1, 2])):
+        rewire(rng, wf, ports)
+        await wf.save(db)
+        resaves += 1
     tokens = [gen_token(rng) for _ in range(rng.randint(1, 4))]
     for t in tokens:
         await t.save(db, port_id=rng.choice(ports).persistent_id)
+    # values with a shared child, saved concurrently
+    shared, together = gen_shared_tokens(rng)
+    port_id = rng.choice(ports).persistent_id
+    if together:
+        await asyncio.gather(*(asyncio.create_task(t.save(db, port_id=port_id)) for t in shared))
+    else:
+        for t in shared:
+            await t.save(db, port_id=port_id)
+    tokens += shared
     original = dump(wf)
     tok_orig = [dump(t) for t in tokens]
-    res = {"seed": seed, "steps": sorted(type(s).__name__ for s in wf.steps.values()), "diffs": []}
+    res = {"seed": seed, "steps": sorted(type(s).__name__ for s in wf.steps.values()), "diffs": [], "resaves": resaves}
+    for t in tokens:
+        if t.persistent_id is None:
+            res["diffs"].append(("save", "token", f"save() returned but the {type(t).__name__} has no persistent id"))
+            return res
 
     async def load():
         lc = DefaultDatabaseLoadingContext(db)
@@ -425,7 +498,11 @@ class C08(Property):
             "configs/targets/filters, execute, gather, scatter, combinator steps with nested dot/cartesian/loop/loop-termination/"
             "list-merge combinators, and for CWL the transformers, conditional, transfer, injector, loop-output steps with token "
             "processors; random wiring; names/values with unicode, spaces, quotes, JSON scalars) plus 1..4 random nested token values "
-            "(Token, ListToken, ObjectToken, JobToken with a Job and its input tokens, CWLFileToken, termination tokens) saved into a real in-memory SqliteDatabase; loaded twice through "
+            "(Token, ListToken, ObjectToken, JobToken with a Job and its input tokens, CWLFileToken, termination tokens) and one DAG-shaped "
+            "value per case (ONE unsaved token below two sibling composites — lists of lists, object+list, object+Job.inputs, two "
+            "roots saved with asyncio.gather — so that concurrent saves of the same instance happen); the workflow is saved, then 0..2 "
+            "times rewired (new and already persisted ports attached to already persisted steps, a new step) and saved again; all "
+            "saved into a real in-memory SqliteDatabase; loaded twice through "
             "fresh DefaultDatabaseLoadingContexts and compared by a canonical structural dump with the original; every mutable "
             "container and string attribute reachable from load #1 is then overwritten and load #2 and a fresh load are dumped "
             "again; WorkflowBuilder(deep_copy=True) must give the same structure without persistent ids. "
@@ -440,7 +517,9 @@ class C08(Property):
                  "recursive value type; structural differential check on random workflow graphs against a real database")
     level_text = ("grade B: generated table of the 60 `_save_additional_params`/`_load` pairs proved closed (every key read is saved, "
                   "through inheritance); token values (plain/list/object, any depth, tags, recoverable flags) proved to round-trip, and "
-                  "earlier loads proved stable under later saves; whole-workflow round trip, independence of two loads and the "
+                  "earlier loads proved stable under later saves; dependency rows proved complete over save / rewire / save histories "
+                  "(shape of `Step.save` read from the source); whole-workflow round trip (incl. re-saves after rewiring and "
+                  "concurrently saved values with a shared child), independence of two loads and the "
                   "deep-copy builder checked on random workflow graphs with the real classes")
     level_note = ("Lean kernel, axioms within {propext, Classical.choice, Quot.sound}; the entity-level round trip `load (save e) = e` "
                   "is not proved as a theorem (only its key-table obligation and the token part)")
@@ -476,6 +555,7 @@ class C08(Property):
                      ("wf", r["seed"]) if len(r["steps"]) >= 3 else None, "workflow")
             for s in r["steps"]:
                 ctx.count("step:" + s)
+            ctx.count(f"resaves:{r.get('resaves', 0)}")
             for label, what, d in r["diffs"]:
                 if what == "deployment-flags":
                     if not self._flag_reported:
